@@ -91,6 +91,58 @@ def _dim_expr(e, consts) -> dims.DimVec:
     raise ValueError(e)
 
 
+def _operations() -> dict:
+    import sympy as sp
+    from sympy.physics import units as U
+    from symplyphysics import Quantity, convert_to, convert_to_si, clone_as_symbol
+    from symplyphysics.core.convert import evaluate_quantity, evaluate_expression
+    from symplyphysics.docs.printer_code import code_str
+    from symplyphysics.docs.printer_latex import latex_str
+    return {
+        "Quantity(q)": lambda q: Quantity(q),
+        "Quantity(q, dimension=1)": lambda q: Quantity(q, dimension=U.Dimension(1)),
+        "Quantity(q, dimension=length)": lambda q: Quantity(q, dimension=U.length),
+        "Quantity(q, display_symbol)": lambda q: Quantity(q, display_symbol="renamed"),
+        "Quantity(2*q)": lambda q: Quantity(2 * q),
+        "Quantity(q**2)": lambda q: Quantity(q**2),
+        "Quantity(q/q)": lambda q: Quantity(q / q),
+        "abs(q)": lambda q: abs(q),
+        "convert_to_si(q)": lambda q: convert_to_si(q),
+        "convert_to(q, q)": lambda q: convert_to(q, q),
+        "evaluate_quantity(q)": lambda q: evaluate_quantity(q),
+        "evaluate_expression(3*q)": lambda q: evaluate_expression(3 * q),
+        "q.subs / solve": lambda q: sp.solve(sp.Symbol("x") * q - 1, sp.Symbol("x")),
+        "simplify(q + q)": lambda q: sp.simplify(q + q),
+        "N(q)": lambda q: sp.N(q),
+        "print": lambda q: (code_str(q), latex_str(q), str(q)),
+    }
+
+
+def operation_histories(consts: dict, ref: dict) -> list:
+    """apply every operation to every constant, re-check that constant (and, once per operation,
+    the whole table) afterwards"""
+    out = []
+    for opname, op in _operations().items():
+        for n, q in sorted(consts.items()):
+            if n not in ref["constants"]:
+                continue
+            try:
+                r = op(q)
+            except Exception:
+                r = None  # refusing is fine; corrupting the table is not
+            msgs = _check_constant(n, q, ref["constants"][n])
+            if r is q and opname.startswith("Quantity("):
+                msgs.append(f"{opname} returned the catalogue object itself instead of a new quantity")
+            out.append((opname, n, "; ".join(f"after {opname}: {m}" for m in msgs)))
+        for n, q in sorted(consts.items()):
+            if n in ref["constants"]:
+                msgs = _check_constant(n, q, ref["constants"][n])
+                if msgs:
+                    out.append((opname + ":table", n, "; ".join(f"after {opname} on all constants: {m}"
+                        for m in msgs)))
+    return out
+
+
 def main(run: Run) -> int:
     with open(REF) as f:
         ref = json.load(f)
@@ -120,6 +172,12 @@ def main(run: Run) -> int:
             run.case(f"missing:{n}", outcome="missing")
             run.violation(f"missing:{n}", f"reference constant {n} is no longer defined", {"kind":
                 "missing", "name": n})
+    # the table is process-global state: it must still be right after ordinary public operations
+    # on its entries (every constant x every operation, table re-read after each)
+    for opname, n, msg in operation_histories(consts, ref):
+        run.case(f"after:{opname}:{n}", outcome="after-operation")
+        if msg:
+            run.violation(f"after:{opname}:{n}", msg, {"kind": "operation", "name": n, "op": opname})
     for ident in ref["identities"]:
         run.case(f"identity:{ident['name']}", outcome="identity")
         try:
@@ -130,7 +188,8 @@ def main(run: Run) -> int:
             run.violation(f"identity:{ident['name']}", m, {"kind": "identity", "name": ident["name"]})
     return run.finish(
         rule="one case per (module-level Quantity of symplyphysics.quantities x {dimension, SI value}), "
-        "per __all__ entry, per listed identity; all are distinct and non-trivial (each compares "
+        "per __all__ entry, per listed identity, and per (public operation, constant) pair with the "
+        "constant re-read after the operation; all are distinct and non-trivial (each compares "
         "library data with an independent reference entry)",
         exhaustive=True,
         assumptions=["reference table data/constants_ref.json (CODATA 2018, IAU 2015) typed by hand",
@@ -151,4 +210,7 @@ def replay(case: dict) -> list[str]:
     if k == "identity":
         ident = [i for i in ref["identities"] if i["name"] == case["name"]][0]
         return _check_identity(ident, consts)
+    if k == "operation":
+        return [m for o, n, m in operation_histories(consts, ref) if m and n == case["name"] and
+            o == case["op"]]
     return [f"unknown case kind {k}"]
